@@ -138,6 +138,15 @@ fn deep_walk<'tcx>(
                 return;
             }
             if def.is_phantom_data() {
+                // PhantomData<T> marks (possible) ownership of T: containers such as Vec<T> only
+                // mention T this way, so follow it
+                path.push(p);
+                for ga in args.iter() {
+                    if let Some(inner) = ga.as_type() {
+                        deep_walk(tcx, inner, path, seen, leaves, depth + 1);
+                    }
+                }
+                path.pop();
                 return;
             }
             path.push(p);
@@ -160,6 +169,7 @@ fn deep_walk<'tcx>(
         ty::Ref(_, inner, _) | ty::Slice(inner) | ty::Array(inner, _) => {
             deep_walk(tcx, *inner, path, seen, leaves, depth + 1)
         }
+        ty::Pat(inner, _) => deep_walk(tcx, *inner, path, seen, leaves, depth + 1),
         ty::Tuple(ts) => {
             for x in ts.iter() {
                 deep_walk(tcx, x, path, seen, leaves, depth + 1);
